@@ -305,7 +305,10 @@ impl<'a> Ev<'a> {
         }
         let (idx, values, is_exact): (usize, Vec<Val>, bool) = match choice {
             Some((i, set)) => (i, set.into_iter().collect(), true),
-            None => (0, self.window.to_vec(), false),
+            None => match self.representatives(g, &rem[0], env) {
+                Some(reps) => (0, reps, true),
+                None => (0, self.window.to_vec(), false),
+            },
         };
         let v = rem[idx].clone();
         let rest: Vec<VarId> = rem
@@ -342,6 +345,50 @@ impl<'a> Ev<'a> {
         }
         env.set_innermost(&v, None);
         if unknown || !is_exact { None } else { Some(false) }
+    }
+
+    // ------------------------------------------------------------------ representatives
+    /// A complete set of representatives for the values of `x` in `g`, available when `g` is a
+    /// formula of pure equality logic: predicate atoms, `=` / `!=` between variables and constants,
+    /// sort tests, connectives and quantifiers - no order comparison and no arithmetic anywhere.
+    /// Let R be the finite set of values that occur in an extent (of either world), as a constant
+    /// of `g`, as the value of a placeholder or of a variable bound so far, plus #inf and #sup.
+    /// Every permutation of the domain that fixes R pointwise and maps integers to integers and
+    /// symbols to symbols is an automorphism of the structure `g` talks about, so the truth value
+    /// of `g` is the same for all integers outside R and the same for all symbols outside R:
+    /// R plus one fresh integer plus one fresh symbol is complete. (Inner variables are eliminated
+    /// the same way with the outer value added to R, so two distinct fresh values are available
+    /// where a formula needs them.)
+    fn representatives(&self, g: &Fm, x: &VarId, env: &Env) -> Option<Vec<Val>> {
+        if !pure_equality_logic(g) {
+            return None;
+        }
+        let mut r: BTreeSet<Val> = BTreeSet::new();
+        for i in [self.h, self.t] {
+            for e in i.preds.values() {
+                for tuple in e {
+                    r.extend(tuple.iter().cloned());
+                }
+                if r.len() > 600 {
+                    return None;
+                }
+            }
+            r.extend(i.fcs.values().cloned());
+        }
+        constants_of(g, &mut r);
+        for (_, v) in env.pairs() {
+            r.insert(v);
+        }
+        r.insert(Val::Inf);
+        r.insert(Val::Sup);
+        let fresh_int = r.iter().filter_map(|v| if let Val::Int(n) = v { Some(*n) } else { None }).max().map(|n| n + 1).unwrap_or(0);
+        let mut fresh_sym = "zzfresh".to_string();
+        while r.contains(&Val::Sym(fresh_sym.clone())) {
+            fresh_sym.push('z');
+        }
+        r.insert(Val::Int(fresh_int));
+        r.insert(Val::Sym(fresh_sym));
+        Some(r.into_iter().filter(|v| x.1.admits(v)).collect())
     }
 
     // ------------------------------------------------------------------ candidate sets
@@ -701,6 +748,62 @@ impl<'a> Ev<'a> {
                 }
             }
         }
+    }
+}
+
+fn plain_term(t: &Tm) -> bool {
+    match t {
+        Tm::Int(IT::Num(_)) | Tm::Int(IT::Var(_)) | Tm::Int(IT::Fc(_)) => true,
+        Tm::Int(_) => false,
+        _ => true,
+    }
+}
+
+/// predicate atoms over plain terms, = and != between plain terms, sort tests, connectives, quantifiers
+fn pure_equality_logic(g: &Fm) -> bool {
+    match g {
+        Fm::True | Fm::False => true,
+        Fm::Atom(_, ts) => ts.iter().all(plain_term),
+        Fm::Cmp(t, gs) => plain_term(t) && gs.iter().all(|(r, u)| matches!(r, Rel::Eq | Rel::Ne) && plain_term(u)),
+        Fm::IsInt(t) | Fm::IsSym(t) => plain_term(t),
+        Fm::Not(f) => pure_equality_logic(f),
+        Fm::Bin(_, a, b) => pure_equality_logic(a) && pure_equality_logic(b),
+        Fm::Q(_, _, f) => pure_equality_logic(f),
+    }
+}
+
+fn constants_of(g: &Fm, out: &mut BTreeSet<Val>) {
+    fn tm(t: &Tm, out: &mut BTreeSet<Val>) {
+        match t {
+            Tm::Inf => {
+                out.insert(Val::Inf);
+            }
+            Tm::Sup => {
+                out.insert(Val::Sup);
+            }
+            Tm::SymC(s) => {
+                out.insert(Val::Sym(s.clone()));
+            }
+            Tm::Int(IT::Num(n)) => {
+                out.insert(Val::Int(*n));
+            }
+            _ => {}
+        }
+    }
+    match g {
+        Fm::True | Fm::False => {}
+        Fm::Atom(_, ts) => ts.iter().for_each(|t| tm(t, out)),
+        Fm::Cmp(t, gs) => {
+            tm(t, out);
+            gs.iter().for_each(|(_, u)| tm(u, out));
+        }
+        Fm::IsInt(t) | Fm::IsSym(t) => tm(t, out),
+        Fm::Not(f) => constants_of(f, out),
+        Fm::Bin(_, a, b) => {
+            constants_of(a, out);
+            constants_of(b, out);
+        }
+        Fm::Q(_, _, f) => constants_of(f, out),
     }
 }
 
